@@ -17,7 +17,8 @@ REPO = os.environ.get("VERIF_REPO", "/repo")
 SPEC = os.path.join(VERIF, "spec")
 WORK = os.path.join(VERIF, "work")
 HARNESS = os.path.join(VERIF, "harness")
-VH = os.path.join(HARNESS, "target", "debug", "vh")
+BIN_DIR = os.path.join(HARNESS, "target", "debug")
+VH = os.path.join(BIN_DIR, "vh")
 TLA_CP = "/opt/veriftools/tla/tla2tools.jar:/opt/veriftools/tla/CommunityModules-deps.jar"
 
 
@@ -43,14 +44,17 @@ def workdir(name):
     return d
 
 
-_built = False
+_built = set()
 
 
-def build_harness():
-    """cargo build the harness against /repo's current working tree (path deps), under a lock."""
-    global _built
-    if _built:
-        return VH
+def build_harness(bin="vh"):
+    """cargo build one harness binary against /repo's current working tree (path deps), under a lock.
+    Each engine family is its own [[bin]] so that checks build (and break) independently."""
+    if os.environ.get("VERIF_BIN_DIR"):
+        # development aid: use prebuilt binaries (e.g. built against a scratch worktree of /repo)
+        return os.path.join(os.environ["VERIF_BIN_DIR"], bin)
+    if bin in _built:
+        return os.path.join(BIN_DIR, bin)
     os.makedirs(WORK, exist_ok=True)
     lock = open(os.path.join(WORK, ".build.lock"), "w")
     fcntl.flock(lock, fcntl.LOCK_EX)
@@ -59,23 +63,23 @@ def build_harness():
         env["CARGO_NET_OFFLINE"] = "true"
         t0 = time.time()
         p = subprocess.run(
-            ["cargo", "build", "--offline", "--quiet"],
+            ["cargo", "build", "--offline", "--quiet", "--bin", bin],
             cwd=HARNESS, env=env, stdout=subprocess.PIPE, stderr=subprocess.STDOUT, text=True,
         )
         if p.returncode != 0:
             log(p.stdout[-6000:])
-            raise ToolError("harness build failed")
-        log("[build] harness built in %.1fs" % (time.time() - t0))
+            raise ToolError("harness build failed (%s)" % bin)
+        log("[build] %s built in %.1fs" % (bin, time.time() - t0))
     finally:
         fcntl.flock(lock, fcntl.LOCK_UN)
         lock.close()
-    _built = True
-    return VH
+    _built.add(bin)
+    return os.path.join(BIN_DIR, bin)
 
 
-def run_vh(args, stdin=None, timeout=3600, env=None, check=True):
-    """Run the harness binary. Returns (returncode, stdout, stderr)."""
-    vh = build_harness()
+def run_vh(args, stdin=None, timeout=3600, env=None, check=True, bin="vh"):
+    """Run a harness binary. Returns (returncode, stdout, stderr)."""
+    vh = build_harness(bin)
     e = dict(os.environ)
     e.setdefault("RUST_BACKTRACE", "0")
     e.setdefault("RUST_MIN_STACK", str(64 * 1024 * 1024))
